@@ -27,6 +27,12 @@ def funcs(maxlen):
     nonempty = [t for t in texts if t]
     fs = []
     fs.append(A.Func("s_cstr_in", A.VoidRes(), [(Over(A.CStrIn(), texts), "s")]))
+    # arrays of strings (char **names +intent(in)+rank(1)): each element arrives trimmed and NUL terminated, and a scalar string
+    # next to the array keeps its own rule; implied lengths of a string argument
+    fs.append(A.Func("s_strarr_in", A.VoidRes(), [(A.StrArrIn(), "names")]))
+    fs.append(A.Func("s_strarr_then_in", A.VoidRes(), [(A.StrArrIn(), "names"), (Over(A.CStrIn(), ["ab ", ""]), "s")]))
+    fs.append(A.Func("s_implied_len_trim", A.VoidRes(), [(Over(A.CStrInImplied("len_trim"), texts), "s")]))
+    fs.append(A.Func("s_implied_len", A.VoidRes(), [(Over(A.CStrInImplied("len"), texts), "s")]))
     for form in ("cref", "val", "cptr"):
         fs.append(A.Func("s_str_in_" + form, A.VoidRes(), [(Over(A.StrIn(form), texts), "s")]))
     fs.append(A.Func("s_cstr_inout", A.VoidRes(), [(Over(A.CStrInout(), nonempty), "s")]))
@@ -97,7 +103,13 @@ def run_into(ctx):
             if decl is None and len(job[2]) == 1:
                 decl = job[2][0].decl()
             if kind in ("generate", "build"):
-                unbuilt.add("%s [%s cfi=%d]" % (decl, job[3], job[4]))
+                # text that cannot be handed over at all breaks the rule as surely as text handed over wrongly - unless the
+                # reason is one that property C05 records for this shape of function
+                if len(job[2]) == 1 and not c01.known_unbuildable(ctx, c01.atom_sig(job[2][0]), job[3], "c+f", job[4]):
+                    ctx.violation("e2e not-callable %s [%s cfi=%d]" % (c01.atom_sig(job[2][0]), job[3], job[4]),
+                                  "%s cannot be called from Fortran at all (%s, F_CFI=%d): %s" % (decl, job[3], job[4], msg[:600]), {"kind": kind, "decl": decl})
+                else:
+                    unbuilt.add("%s [%s cfi=%d]" % (decl, job[3], job[4]))
                 continue
             ctx.violation("e2e %s %s [%s cfi=%d]" % (kind, decl, job[3], job[4]), msg, {"kind": kind, "decl": decl})
     ctx.count(states=calls, transitions=calls, validated=calls)
